@@ -432,7 +432,9 @@ fn ing(kind: &str) -> Sx {
     Sx::tagged("ingest", vec![Sx::a(kind)])
 }
 
-/// requests that succeed
+/// requests that succeed (several of them were findings before the fix commits: OFFSET beyond the
+/// rows / without LIMIT, LIMIT 0 with ORDER BY, i64::MIN % -1, quote-only identifiers, empty batches,
+/// short string columns, mixed-type columns with NULLs)
 fn valid_pool() -> Vec<Sx> {
     vec![
         q("SELECT i FROM t LIMIT 3"),
@@ -442,10 +444,24 @@ fn valid_pool() -> Vec<Sx> {
         q("SELECT * FROM t LIMIT 2 OFFSET 1"),
         q("SELECT nosuch FROM t"),
         q("SELECT i FROM t LIMIT 0"),
+        q("SELECT i FROM t LIMIT 1 OFFSET 50"),
+        q("SELECT i FROM u LIMIT 5 OFFSET 4"),
+        q("SELECT i FROM t OFFSET 1"),
+        q("SELECT i FROM t OFFSET 18446744073709551615"),
+        q("SELECT i FROM t LIMIT 18446744073709551615 OFFSET 1"),
+        q("SELECT big % -1 FROM t"),
+        q("SELECT i FROM t ORDER BY s LIMIT 0"),
+        q("SELECT i FROM t ORDER BY i DESC LIMIT 1"),
+        q("SELECT \"\"\"\" FROM t"),
+        q("SELECT \"i\" = é FROM t"),
         ing("ok"),
         ing("new_column"),
         ing("two_tables"),
         ing("type_change"),
+        ing("zero_rows"),
+        ing("zero_rows_new_table"),
+        ing("short_string"),
+        ing("mixed_all"),
         Sx::l(vec![Sx::a("flush")]),
         Sx::l(vec![Sx::a("stats")]),
         Sx::l(vec![Sx::a("memtree")]),
@@ -459,6 +475,11 @@ fn failing_pool() -> Vec<Sx> {
         q("SELECT FROM t"),
         q("SELECT i FROM"),
         q("SELECT 'unterminated FROM t"),
+        q(""),
+        q(";"),
+        q("SELECT i FROM t LIMIT 1.5"),
+        q("SELECT i FROM t LIMIT 99999999999999999999999"),
+        q("SELECT i FROM t LIMIT 1 OFFSET 1e2"),
         q("SELECT i FROM nosuchtable"),
         q("SELECT * FROM nosuchtable"),
         q("SELECT s + 1 FROM t"),
@@ -485,24 +506,13 @@ fn failing_pool() -> Vec<Sx> {
     ]
 }
 
-/// requests of the known-finding classes (at most one per scenario)
+/// requests of the findings that are still open (at most one per scenario)
 fn damaging_pool() -> Vec<(&'static str, Sx)> {
     vec![
-        ("F5a", q("SELECT i FROM t LIMIT 1 OFFSET 50")),
-        ("F5a", q("SELECT i FROM u LIMIT 5 OFFSET 4")),
-        ("F5b", q("SELECT i FROM t OFFSET 1")),
-        ("F9", q("SELECT big % -1 FROM t")),
-        ("F6", q("SELECT i FROM t LIMIT 1.5")),
-        ("F6", q("SELECT \"\"\"\" FROM t")),
-        ("F6", q("")),
         ("F27", q("SELECT SUM(i) + 9223372036854775807 FROM t")),
         ("F32", q("SELECT 1 FROM t")),
         ("F32", q("SELECT 'a', i FROM t")),
-        ("F28", q("SELECT i FROM t ORDER BY s LIMIT 0")),
-        ("F12", ing("zero_rows")),
-        ("F12", ing("zero_rows_new_table")),
-        ("F11", ing("short_string")),
-        ("F4", ing("mixed_all")),
+        ("F23", q("SELECT n FROM t ORDER BY n DESC LIMIT 1")),
         ("F2", ing("hex_compact")),
     ]
 }
